@@ -16,6 +16,7 @@ CONSTANTS
   HistCaps = {1, 2}
   HistReasons = {1, 2}
   HistAges = {0, 2}
+  HistMaxTime = 2
   MaxTime = 5
   MaxOps = 4
   SecUnit = 2
@@ -27,8 +28,7 @@ CONSTANTS
   AsImplemented_IgnoresRecommendation = FALSE
   AsImplemented_DefaultKeepsNothing = FALSE
   Variant_CriticalSkipsCooldown = FALSE
-INVARIANTS TypeOK NoProceedWhenGated WaitBounded PermanentNeverRetried TransientNotBlocked ReasonClasses ProceedFollowsRecommendation
-           SameGates FitnessMapping BackoffWithinCap BackoffMonotoneInFailures AttemptSetsBackoff SuccessResets CircuitTrips
+INVARIANTS TypeOK Decisions ReasonClasses BackoffWithinCap BackoffMonotoneInFailures AttemptSetsBackoff SuccessResets CircuitTrips
            OpenMeansFailures PrefixTracking EvalRecords HBounded HRecordKeepsLatest HRecentRules HCommonRules
 PROPERTIES CountersMonotone BackoffGrows TimeOnlyHelps
 CHECK_DEADLOCK FALSE
